@@ -26,7 +26,7 @@ import (
 // C07 — a delegate session can do only what its grants allow, once, and in time.
 
 func init() {
-	Register(&Scenario{Name: "delegate-session", Property: "C07", Fn: scDelegate})
+	Register(&Scenario{Name: "delegate-session", Property: "C07", Fn: scDelegate, Yields: true})
 }
 
 type mGrant struct {
@@ -320,6 +320,53 @@ func scDelegate(r *Run) {
 				ag.Close()
 			}
 		}
+	}
+	// overlapping logins with one delegate key: the grants are consumed by exactly one of them
+	if r.Intn("cfg", 3) == 0 {
+		r.ArmYields([]string{"hopserver.", "authgrants."}, 1+r.Intn("race", 4), 1+r.Intn("race", 10), []float64{0.3, 1}[r.Intn("race", 2)])
+		r.YieldsOn(true)
+		rk := newX25519()
+		ru := users[r.Intn("race", 2)]
+		in := &authgrants.Intent{GrantType: authgrants.Shell, StartTime: time.Now().Add(-time.Minute), ExpTime: time.Now().Add(time.Hour), TargetUsername: ru,
+			DelegateCert: *SelfSigned(rk.Public, certs.RawStringName("delegate"))}
+		if hs.AddAuthGrant(in) == nil {
+			nPar := 2 + r.Intn("race", 2)
+			oks := make([]bool, nPar)
+			var lw sync.WaitGroup
+			for i := 0; i < nPar; i++ {
+				i := i
+				lw.Add(1)
+				r.Go(func() {
+					defer lw.Done()
+					tc := NewTClient(r, n, ts, ClientOpts{Addr: Addr(byte(100+i), 4100+i), Key: rk, Leaf: SelfSigned(rk.Public, certs.RawStringName("delegate")), HSTimeout: 3 * time.Second})
+					defer tc.C.Close()
+					if tc.C.Handshake() != nil {
+						return
+					}
+					mux := tubes.Client(tc.C, &tubes.Config{Log: NewLogEntry()})
+					defer func() { WithTimeout(r, 30*time.Second, func() { mux.Stop() }) }()
+					ua, err := mux.CreateReliableTube(common.UserAuthTube)
+					if err != nil {
+						return
+					}
+					WithTimeout(r, 20*time.Second, func() { oks[i] = userauth.RequestAuthorization(ua, ru) })
+					ua.Close()
+				})
+			}
+			lw.Wait()
+			admitted := 0
+			for _, ok := range oks {
+				if ok {
+					admitted++
+				}
+			}
+			r.Obligation(1)
+			r.CountFault("overlapping-logins-one-grant", 1)
+			if admitted > 1 {
+				r.Violate("C07/grant-admits-two-sessions", "%d overlapping logins with the same delegate key were all admitted on the strength of ONE stored grant", admitted)
+			}
+		}
+		r.YieldsOn(false)
 	}
 	nSessions := 1 + r.Intn("cfg", 3)
 	for s := 0; s < nSessions; s++ {
